@@ -250,6 +250,10 @@ class Gen:
     def scenario(self):
         r = self.r
         fs = self.fields()
+        if any(f["w"] > 16 and not f.get("enums") for f in fs):
+            # multiplication / division over wide fields makes single SAT calls run for hours: wide fields are exercised
+            # with the other operators, the hard operators with fields up to 16 bits
+            self.p = dict(self.p, arops=[o for o in self.p.get("arops", AR) if o not in ("mul", "div", "mod")])
         nb = r.choice([1, 1, 2])
         blocks = [{"name": "c%d" % i, "stmts": self.stmts(fs, 2, 1, self.p.get("maxstmts", 4))} for i in range(nb)]
         calls = []
